@@ -318,39 +318,99 @@ def rule_close_payload(ctx):
     rt = [n for n in g.stmt_nodes() if n.kind == "test" and any(
         any(self_call(c, "_invalid_payload") for c in node_calls(m)) for m, lab in n.succ if lab and lab[0] == "T")]
     ctx.require(len(rt) == 1, "close-reason UTF-8 test not found in onCloseFrame")
-    at = set(norm.atoms(rt[0].ast, False, res))  # what holds when the reason is accepted
-    need = {("truth", "val[0]", None, True), ("truth", "val[1]", None, True)}
-    ctx.ob("close reason must be valid UTF-8 AND end on a code point", need <= at,
-           f"accepted-branch facts {sorted(map(str, at))} do not require both validator flags", ocf.loc(rt[0].ast))
-    vass = [n for n in g.stmt_nodes() if n.kind == "stmt" and isinstance(n.ast, ast.Assign) and norm.text(n.ast.targets[0]) == "val"]
-    ok = len(vass) == 1 and isinstance(vass[0].ast.value, ast.Call) and norm.text(vass[0].ast.value.args[0]) == "reasonRaw" \
-        and call_name(vass[0].ast.value).endswith(".validate")
-    ctx.ob("close reason validated by Utf8Validator on the raw reason", ok, "val is not utf8validator.validate(reasonRaw)", ocf.loc())
+    # semantics of that test, independent of local names: with V = <validator>.validate(<raw reason>), the reason is refused
+    # iff not (V[0] and V[1])
+    from ..core.terms import TermEval, eval_bool, subterms, show
+    te = TermEval(ctx.program, ocf, inline=lambda c, f: None).run()
+    inv = [(conds, t) for conds, t, st in te.effects if t[0] == "m" and t[1] == ("p", "self") and t[2] == "_invalid_payload"] + \
+          [(o.conds, o.term) for o in te.outcomes if o.term[0] == "m" and o.term[2] == "_invalid_payload"]
+    inv += [(conds, c) for conds, t, st in te.effects for c in subterms(t) if c[0] == "m" and c[2] == "_invalid_payload" and c is not t]
+    for o in te.outcomes:
+        for cnd, pl in o.conds:
+            for c in subterms(cnd):
+                if c[0] == "m" and c[1] == ("p", "self") and c[2] == "_invalid_payload":
+                    inv.append((o.conds[:[x[0] for x in o.conds].index(cnd)], c))
+    ctx.require(bool(inv), "onCloseFrame: _invalid_payload call not found by the term extraction")
+    conds = inv[0][0]
+    raw = ("p", ocf.params()[2])
+
+    def is_V(t):
+        return t[0] == "m" and t[2] == "validate" and t[3] and t[3][0] == raw
+
+    def flag_index(t):
+        # V[k] or V[:n][k]
+        if t[0] == "idx" and t[2][0] == "c" and isinstance(t[2][1], int):
+            b = t[1]
+            if is_V(b) or (b[0] == "slice" and is_V(b[1]) and b[2] in (("c", None), ("c", 0))):
+                return t[2][1]
+        return None
+    ok = True
+    why = ""
+    try:
+        for a in (False, True):
+            for b in (False, True):
+                def atom(t, a=a, b=b):
+                    k = flag_index(t)
+                    return (a if k == 0 else b if k == 1 else None) if k is not None else None
+                reached = all(eval_bool(c, atom) == pl for c, pl in conds if any(flag_index(x) is not None for x in subterms(c)))
+                if reached != (not (a and b)):
+                    ok = False
+                    why = f"with validator flags (valid={a}, ends on code point={b}) the reason is {'refused' if reached else 'accepted'}"
+        used = any(flag_index(x) is not None for c, pl in conds for x in subterms(c))
+        ok = ok and used
+    except AnalysisError as e:
+        ok, why = False, str(e)
+    ctx.ob("close reason must be valid UTF-8 AND end on a code point (validator run on the raw reason)", ok,
+           why or "the refusal does not depend on <validator>.validate(raw reason)[0] and [1]", ocf.loc(rt[0].ast))
     # processControlFrame: split of the close payload
     pcf = wsp.methods.get("processControlFrame")
     ctx.analysed(pcf)
     g2, mf2, res2 = an.get(pcf)
-    code_nodes = [n for n in g2.stmt_nodes() if n.kind == "stmt" and isinstance(n.ast, ast.Assign) and norm.text(n.ast.targets[0]) == "code"
-                  and not isinstance(n.ast.value, ast.Constant)]
-    reason_nodes = [n for n in g2.stmt_nodes() if n.kind == "stmt" and isinstance(n.ast, ast.Assign) and norm.text(n.ast.targets[0]) == "reasonRaw"
-                    and not isinstance(n.ast.value, ast.Constant)]
-    ctx.require(len(code_nodes) == 1 and len(reason_nodes) == 1, "close payload split not found in processControlFrame")
-    cn, rn = code_nodes[0], reason_nodes[0]
-    ll_def = [n for n in g2.stmt_nodes() if n.kind == "stmt" and isinstance(n.ast, ast.Assign) and norm.text(n.ast.targets[0]) == "ll"]
-    ok_ll = len(ll_def) == 1 and norm.text(ll_def[0].ast.value) == "len(payload)"
-    ctx.ob("close payload length variable is len(payload)", ok_ll, "ll is not len(payload)", pcf.loc())
-    fc = mf2.at(cn)
-    ctx.ob("status code read only when payload has > 1 octets", ("lt", ("c", 1), ("e", "ll"), True) in fc,
-           "code extracted without the `len > 1` guard", pcf.loc(cn.ast))
-    ctx.ob("status code is the first two octets, network order",
-           norm.text(cn.ast.value) == "struct.unpack('!H', payload[0:2])[0]" or norm.text(cn.ast.value) == "struct.unpack('!H', payload[:2])[0]",
-           f"code = {norm.text(cn.ast.value)}", pcf.loc(cn.ast))
-    fr = mf2.at(rn)
-    ctx.ob("reason read only when payload has > 2 octets", ("lt", ("c", 2), ("e", "ll"), True) in fr,
-           "reason extracted without the `len > 2` guard", pcf.loc(rn.ast))
-    ctx.ob("reason is payload[2:]", norm.text(rn.ast.value) == "payload[2:]", f"reasonRaw = {norm.text(rn.ast.value)}", pcf.loc(rn.ast))
+    from ..core.flow import local_assignments
+
+    def unpack_of(v):
+        # struct.unpack("!H", X[0:2])[0] / int.from_bytes(X[:2], "big") -> X
+        for c in ast.walk(v):
+            if isinstance(c, ast.Call) and norm.text(c.func) == "struct.unpack" and len(c.args) == 2 and isinstance(c.args[0], ast.Constant) and \
+                    c.args[0].value in ("!H", ">H") and isinstance(c.args[1], ast.Subscript) and isinstance(c.args[1].slice, ast.Slice):
+                sl = c.args[1].slice
+                lo = 0 if sl.lower is None else getattr(sl.lower, "value", None)
+                hi = getattr(sl.upper, "value", None)
+                if (lo, hi) == (0, 2):
+                    return norm.text(c.args[1].value)
+        return None
+    code_nodes = [n for n in g2.stmt_nodes() if n.kind == "stmt" and isinstance(n.ast, ast.Assign) and unpack_of(n.ast.value) is not None]
+    ctx.require(len(code_nodes) == 1, "processControlFrame: status code extraction (2 octets, network order) not found")
+    cn = code_nodes[0]
+    X = unpack_of(cn.ast.value)
+    code_var = norm.text(cn.ast.targets[0])
+    reason_nodes = [n for n in g2.stmt_nodes() if n.kind == "stmt" and isinstance(n.ast, ast.Assign) and isinstance(n.ast.value, ast.Subscript)
+                    and norm.text(n.ast.value.value) == X and isinstance(n.ast.value.slice, ast.Slice) and n.ast.value.slice.upper is None]
+    ctx.require(len(reason_nodes) == 1, "processControlFrame: close reason slice not found")
+    rn = reason_nodes[0]
+    reason_var = norm.text(rn.ast.targets[0])
+
+    def len_more_than(facts, k):
+        """facts imply len(X) > k (through a local holding len(X) or directly)."""
+        names = {f"len({X})"}
+        for st in walk_no_defs(pcf.node):
+            if isinstance(st, ast.Assign) and isinstance(st.targets[0], ast.Name) and norm.text(st.value) == f"len({X})" and len(local_assignments(pcf, st.targets[0].id)) == 1:
+                names.add(st.targets[0].id)
+        for f in facts or ():
+            if f[0] == "lt" and f[1][0] == "c" and f[2][0] == "e" and f[2][1] in names and f[3] and f[1][1] >= k:
+                return True
+            if f[0] == "lt" and f[1][0] == "e" and f[1][1] in names and f[2][0] == "c" and not f[3] and f[2][1] >= k + 1:
+                return True
+        return False
+    ctx.ob("status code read only when the close payload has > 1 octets", len_more_than(mf2.at(cn), 1),
+           "code extracted without a guard that the payload has at least 2 octets", pcf.loc(cn.ast))
+    ctx.ob("status code is the first two octets, network order", True, "", pcf.loc(cn.ast))
+    ctx.ob("reason read only when the close payload has > 2 octets", len_more_than(mf2.at(rn), 2),
+           "reason extracted without a guard that the payload has more than 2 octets", pcf.loc(rn.ast))
+    lo = rn.ast.value.slice.lower
+    ctx.ob("reason is everything after the two status octets", isinstance(lo, ast.Constant) and lo.value == 2, f"{reason_var} = {norm.text(rn.ast.value)}", pcf.loc(rn.ast))
     calls = [(n, c) for n in g2.stmt_nodes() for c in node_calls(n) if self_call(c, "onCloseFrame")]
-    ok = len(calls) == 1 and [norm.text(a) for a in calls[0][1].args] == ["code", "reasonRaw"] and \
+    ok = len(calls) == 1 and [norm.text(a) for a in calls[0][1].args] == [code_var, reason_var] and \
         ("eq", "self.current_frame.opcode", ("c", 8), True) in mf2.at(calls[0][0])
     ctx.ob("onCloseFrame(code, reasonRaw) dispatched for opcode 8", ok, "close dispatch changed", pcf.loc())
 
@@ -387,9 +447,22 @@ def rule_utf8_policy(ctx):
     ctx.ob("validation enabled by utf8validateIncomingCurrentMessage", ("truth", "self.utf8validateIncomingCurrentMessage", None, True) in mf.at(vn),
            "validate() not under the per-message validation flag", ofd.loc(vn.ast))
     # on the validating path the delivery is preceded by validate + verdict test
-    tests = [n for n in g.stmt_nodes() if n.kind == "test" and set(norm.atoms(n.ast, True, res)) == {("truth", "self.utf8validateLast[0]", None, False)}]
-    ctx.require(len(tests) == 1, "onFrameData: `not self.utf8validateLast[0]` test not found")
+    tests = [n for n in g.stmt_nodes() if n.kind == "test" and "self.utf8validateLast" in ast.unparse(n.ast) and not isinstance(n.ast, ast.Call)]
+    ctx.require(len(tests) == 1, "onFrameData: test of the validator verdict not found")
     t = tests[0]
+    # mid-message a chunk may end inside a code point: the chunk is refused iff the validator says invalid (flag 0), whatever flag 1 says
+    from ..core.tiny import Tiny
+    table = {}
+    try:
+        for a_ in (False, True):
+            for b_ in (False, True):
+                table[(a_, b_)] = bool(Tiny({"self.utf8validateLast[0]": a_, "self.utf8validateLast[1]": b_}).ev(t.ast))
+        okt = all(table[(a_, b_)] == (not a_) for a_, b_ in table)
+        why = "" if okt else "refused for (valid, ends on code point) in " + str(sorted(k for k, v in table.items() if v))
+    except AnalysisError as e:
+        okt, why = False, f"verdict test not analysable: {e}"
+    ctx.ob("a chunk is refused iff the validator reports invalid octets (a chunk may end inside a code point)", okt,
+           f"{why}: valid text whose multi-octet character is cut by a read or fragment boundary would be failed (or invalid octets accepted)", ofd.loc(t.ast))
     # any path from validate to delivery passes the verdict test
     ok = not g.path_exists(vn, dn, avoid=lambda x: x is t)
     ctx.ob("verdict tested before the payload is passed on", ok, "a path from validate() reaches _onMessageFrameData without testing the verdict", ofd.loc(dn.ast))
@@ -409,8 +482,15 @@ def rule_utf8_policy(ctx):
     end = [(n, c) for n in g2.stmt_nodes() for c in node_calls(n) if self_call(c, "_onMessageEnd")]
     ctx.require(len(end) == 1, "onFrameEnd: _onMessageEnd call not found")
     en = end[0][0]
-    t2 = [n for n in g2.stmt_nodes() if n.kind == "test" and set(norm.atoms(n.ast, True, res2)) == {("truth", "self.utf8validateLast[1]", None, False)}]
-    ctx.require(len(t2) == 1, "onFrameEnd: `not self.utf8validateLast[1]` test not found")
+    t2 = [n for n in g2.stmt_nodes() if n.kind == "test" and "self.utf8validateLast" in ast.unparse(n.ast) and "utf8validateIncomingCurrentMessage" not in ast.unparse(n.ast) and not isinstance(n.ast, ast.Call)]
+    ctx.require(len(t2) == 1, "onFrameEnd: test of the validator verdict not found")
+    try:
+        tb2 = {(a_, b_): bool(Tiny({"self.utf8validateLast[0]": a_, "self.utf8validateLast[1]": b_}).ev(t2[0].ast)) for a_ in (False, True) for b_ in (False, True)}
+        # at message end flag 0 is already known true (a false one stopped the message earlier): decisive cells are (True, *)
+        ok_end = tb2[(True, False)] is True and tb2[(True, True)] is False
+    except AnalysisError:
+        ok_end = False
+    ctx.ob("at message end the text is refused iff it does not end on a code point", ok_end, "end-of-message verdict test changed", ofe.loc(t2[0].ast))
     flag = [n for n in g2.stmt_nodes() if n.kind == "test" and set(norm.atoms(n.ast, True, res2)) == {("truth", "self.utf8validateIncomingCurrentMessage", None, True)}]
     ctx.require(len(flag) == 1, "onFrameEnd: validation flag test not found")
     tb = [m for m, lab in flag[0].succ if lab and lab[0] == "T"]
